@@ -12,6 +12,8 @@
   * `slider_rt_exact`: in a state with empty `curve_points` (every reachable state) and with an expected length that is
     its own `max(·, 0)` and at least `f64::EPSILON`, the fields come back exactly.
   * `node_samples_rt`: names and banks of a node sample list in the decoder's own shape come back.
+  * `hitobjects_block_rt`: for a map all of whose objects are representable, the `[HitObjects]` block read back from any
+    decoder state appends one object per written line, of the same kinds at the same start times, in order.
   Findings named by the hypotheses: **F17** (a typed point — the first one included — whose position is repeated at a
   segment start: excluded by `RepPath` through `ChainOK`, with `example`s in Lemmas/SliderEx.lean that those shapes are
   outside the class), **F18** (a node's custom sample file name is never written), **F20** (`RepSlider.distRep`: the written
@@ -22,6 +24,7 @@
 -/
 import RosuModel.Props.C02
 import RosuModel.Lemmas.SliderEx
+import RosuModel.Lemmas.HitObjectBlock
 set_option linter.unusedSectionVars false
 namespace Rosu.C02
 open Rosu Encode EncodeLines C11 Scalar
@@ -140,9 +143,40 @@ example (st : HOCore ZC ZC) := slider_rt ZC.laws ZC.laws SliderRt.ZC.coordLaws G
 example (st : HOCore ZC ZC) (hst : st.curvePoints = []) :=
   slider_rt_exact GameMode.osu SliderRt.exSliderObj SliderRt.exSlider ⟨420⟩ st hst (by decide) (by decide) rfl
 
-/-- what is still missing for the hit-object half of `roundtrip_statement`: the assembly over all objects of a decoded
-map — that every object of a decoded map is representable in the sense of `RepCircle` / `RepSlider` / `RepSpinner` /
-`RepHold` (outside the documented findings F17, F18), and the map-level processing after the lines. -/
+section
+variable {F P : Type} [Scalar F] [Scalar P] [Cvt P F] [Trig F] [Trig P] {RF : F → Prop} {RP : P → Prop}
+
+/-- **hitobjects_block_rt** — the `[HitObjects]` block of a map whose objects are all representable
+(`SliderRt.RepObject`): the lines `encode_hit_objects` writes, read back through `parse_hit_objects` from any decoder
+state, are all accepted and append exactly one object per line — the same number of objects, of the same kinds, at the
+same start times, in the same order — and leave the path buffer empty. (Per object, `circle_rt` / `slider_rt` /
+`spinner_rt` / `hold_rt` say what else comes back.) -/
+theorem hitobjects_block_rt (LF : CodecLaws F RF) (LP : CodecLaws P RP) (LC : SliderRt.CoordLaws F P RP) (m : Beatmap F P)
+    (hm : ∀ h ∈ m.hitObjects, SliderRt.RepObject RF RP m.general.mode h) :
+    ∃ H : List Str, encodeHitObjects m = .ok (unlines (str "[HitObjects]" :: H)) ∧
+      ∀ st : HOCore F P, Accepts (parseHitObjectLine m.general.mode) st (H.map trimEnd) ∧
+        ∃ os, (runSection (parseHitObjectLine m.general.mode) st (H.map trimEnd)).hitObjects = st.hitObjects ++ os ∧
+          os.map SliderRt.timeKind = m.hitObjects.map SliderRt.timeKind ∧
+          (st.curvePoints = [] → (runSection (parseHitObjectLine m.general.mode) st (H.map trimEnd)).curvePoints = []) := by
+  obtain ⟨H, h1, _, _, h4⟩ := SliderRt.block_lines LF LP LC m.general.mode m.hitObjects hm
+  refine ⟨H, ?_, h4⟩
+  unfold encodeHitObjects
+  simp only [h1, bind, Except.bind, pure, Except.pure, unlines_cons]
+  rfl
+
+/-- non-vacuity: a two-object block (the sample circle and the sample slider) on the toy codec. -/
+example : ∀ h ∈ [RtObjects.sampleCircleObj, SliderRt.exSliderObj], SliderRt.RepObject ZC.Rep ZC.Rep GameMode.osu h := by
+  intro h hh
+  simp only [List.mem_cons, List.not_mem_nil, or_false] at hh
+  rcases hh with hh | hh <;> subst hh
+  · exact .circle _ rfl RtObjects.sampleCircle_rep
+  · exact .slider _ ⟨420⟩ rfl SliderRt.exSlider_rep
+
+end
+
+/-- what is still missing for the hit-object half of `roundtrip_statement`: that every
+object of a *decoded* map is representable in the sense of `SliderRt.RepObject` (outside the documented findings F17,
+F18, F20) — with that, `hitobjects_block_rt` gives the statement below — and the map-level processing after the lines. -/
 def hitobjects_roundtrip_statement : Prop :=
   ∀ (F P : Type) [Scalar F] [Scalar P] [Cvt P F] [Trig F] [Trig P] (RF : F → Prop) (RP : P → Prop),
     CodecLaws F RF → CodecLaws P RP → SliderRt.CoordLaws F P RP →
